@@ -28,6 +28,16 @@ CHECKS = {
               "shapes, prime squares, close-prime products, literature strong/Lucas pseudoprimes); generated primes are checked for exact size and primality."),
         note="Trusted: CPython integers; ref/primes.py (certificates re-verified at run time, BPSW for library-generated primes). Miller-Rabin on composites is probabilistic: only >=20-round runs must say COMPOSITE. Held only on generated operands (<= 4224 bits).",
         ref="DESIGN.md §4 C14"),
+    "C15": dict(
+        technique="runtime monitor: reference-model oracle (independent RFC 9180 DHKEM/KeySchedule/ContextS/ContextR over ref.ec + ref.modes) with captured ephemeral keys, over hostile receiver histories",
+        text=("For all 5 KEMs x 3 AEADs x {base, PSK, auth, auth-PSK} the ephemeral key generated inside HPKE.new() is captured by wrapping the ECC module the HPKE module looks "
+              "up at call time; enc and every seal() output must equal the model's (which pins Encap/AuthEncap, kem_context, LabeledExtract/Expand, KeySchedule, per-message nonces "
+              "and the AEAD); the receiver is offered hostile interleavings of genuine-in-order, bit-flipped, truncated, extended, replayed, skipped-ahead, wrong-AAD and foreign-tag "
+              "messages and its outcome for each offered message must equal the model ContextR, whose sequence number advances only after a successful open (RFC 9180 5.2); receivers "
+              "built with different info/psk/psk_id/AEAD/sender key/receiver key/enc must reject; invalid PSK/key/enc set-ups (psk without id, short psk, two private keys, curve "
+              "mismatch, enc when sealing / missing / wrong length / off curve / not reduced / low order) must be refused with ValueError."),
+        note="Trusted: ref/hpke.py (self-tested against RFC 9180 A.1.1 key schedule and two ciphertexts), ref.ec, ref.modes, stdlib hmac. info/AAD/plaintext up to 5000 bytes, histories up to 12 messages; sequence exhaustion is covered by C11 via state injection.",
+        ref="DESIGN.md §4 C15"),
     "C16": dict(
         technique="runtime monitor: differential-configuration oracle (same transcript under AES-NI on/off, CLMUL on/off, GMP/custom/native integers) with variant call counters",
         text=("Identical inputs are executed under both members of every implementation pair and the transcripts (values, Python types, exception classes) "
